@@ -1,0 +1,13 @@
+//go:build verif
+
+package signature
+
+// VerifCanonicalPayload exposes canonicalPayload.
+func VerifCanonicalPayload(alg string, values map[string]any) ([]byte, error) {
+	return canonicalPayload(alg, values)
+}
+
+// VerifRequireKeys exposes requireKeys for map[string]any.
+func VerifRequireKeys(in map[string]any, keys []string) (map[string]any, error) {
+	return requireKeys(in, keys)
+}
